@@ -222,6 +222,11 @@ def endpoint_skeletons() -> dict[str, dict]:
                 },
                 "delete": {"operationId": "pathItemOnly", "responses": {"204": {"description": "none"}}},
             },
+            "/over/ride": {
+                "parameters": [param("ver", "header", STR), param("keep-me", "query", STR), param("ver", "cookie", STR)],
+                "get": {"operationId": "overrideOtherLocation", "parameters": [param("ver", "query", STR, True)], "responses": {"204": {"description": "none"}}},
+                "post": {"operationId": "overrideSameLocation", "parameters": [param("ver", "header", INT, True)], "responses": {"204": {"description": "none"}}},
+            },
             "/e/{color}/{level}": {
                 "put": {
                     "operationId": "enumPath",
@@ -264,7 +269,9 @@ def endpoint_skeletons() -> dict[str, dict]:
             "/r/union": {"get": {"operationId": "getUnion", "responses": {"200": jresp({"oneOf": [ref("Leaf"), ref("Err")]}), "400": jresp({"type": ["integer", "null"]})}}},
             "/r/ref": {"get": {"operationId": "getRefResp", "security": [{"k": []}], "responses": {"200": {"$ref": "#/components/responses/LeafResp"}, "500": {"$ref": "#/components/responses/Empty"}}}},
             "/r/none": {"get": {"operationId": "getNone", "responses": {"204": {"description": "none"}}}},
+            "/r/shared1": {"get": {"operationId": "getSharedOne", "responses": {"200": jresp(INT), "404": {"$ref": "#/components/responses/NotFound"}}}},
+            "/r/shared2": {"get": {"operationId": "getSharedTwo", "responses": {"404": {"$ref": "#/components/responses/NotFound"}, "409": {"$ref": "#/components/responses/NotFound"}}}},
         },
-        responses={"LeafResp": jresp(ref("Leaf")), "Empty": {"description": "nothing"}},
+        responses={"LeafResp": jresp(ref("Leaf")), "Empty": {"description": "nothing"}, "NotFound": jresp(obj({"detail": STR, "kind": {"type": "string", "enum": ["gone", "never"]}}, ["detail"]))},
     )
     return S
